@@ -82,6 +82,13 @@ def widen(I, st, old, cid, disabled, checks, ty=None):
                 continue
             st.add_ge0(mk(X))
             checks.append((c, lambda sb, vb, mk=mk: isinstance(vb, VInt) and sb.entails(mk(vb.lin))))
+        # bounded by the length of an array of the frame (an index / fill level kept in range by bounds checks)
+        for N in getattr(I, "_loop_bounds", ()):
+            c = cid + ("le_const", N)
+            if c in disabled or not st.entails(Lin.const(N) - old.lin):
+                continue
+            st.add_ge0(Lin.const(N) - X)
+            checks.append((c, lambda sb, vb, N=N: isinstance(vb, VInt) and sb.entails(Lin.const(N) - vb.lin)))
         return VInt(X)
     if isinstance(old, VBool):
         if old.f[0] == "c":
@@ -527,6 +534,7 @@ def analyze_loop(I, st, fr, info):
     disabled = set()
     sink = I.sink
     max_iter = 40
+    I._loop_bounds = tuple(sorted({v.n for v in fr.locals.values() if isinstance(v, VArray) and v.n})[:3])
     for it in range(max_iter):
         snap = (len(sink.obligs), len(sink.events), len(I.finals), len(I.opaque_calls), len(I.pending_closures))
         head = st.fork()
